@@ -156,7 +156,18 @@ def run_check(prop, tier, seed, timeout, verbose):
     native_err = None
     if os.path.exists(os.path.join(VERIF, "native", f"{prop}.py")):
         try:
-            native = run_native(prop, tier, seed)
+            extra = None
+            models = {}
+            for ob in failed:
+                if getattr(ob, "model", None):
+                    models.setdefault(ob.unit, []).append({"obligation": ob.name, "model": ob.model})
+            if models:          # the solver's counterexamples, to be replayed on the real functions
+                os.makedirs(os.path.join(VERIF, "replays", prop), exist_ok=True)
+                mpath = os.path.join(VERIF, "replays", prop, "_models.json")
+                with open(mpath, "w") as fh:
+                    json.dump(models, fh)
+                extra = ["--models", mpath]
+            native = run_native(prop, tier, seed, extra)
         except Exception as e:
             native_err = str(e)
             errors.append(f"native harness: {e}")
@@ -172,6 +183,11 @@ def run_check(prop, tier, seed, timeout, verbose):
         _t = native.get("targets", {})
         nat = _t.get(unit) or _t.get(unit.split("#")[0]) or _t.get(_re.sub(r"@loop\d+", "", unit.split("#")[0]))
         fails = nat["failures"] if nat else []
+        # the verifier's own counterexample, when it reproduces on the real function, comes first
+        from_model = [dict(r["detail"], how_found="the solver's counterexample for obligation "
+                           f"{r['obligation']} replayed on the real function") for r in native.get("model_replays", [])
+                      if r.get("unit") == unit and r.get("fails")]
+        fails = from_model + list(fails)
         new_fails = []
         for f in fails:
             k = match_known(known, prop, unit, f)
@@ -283,7 +299,7 @@ def write_replay(replay_dir, prop, unit, obs, failure, index):
         "expected": failure.get("expected") if failure else None,
         "observed": failure.get("observed") if failure else None,
         "klass": failure.get("klass") if failure else None,
-        "how_found": ("native small-scope search of the same contract on the real function"
+        "how_found": ((failure.get("how_found") or "native small-scope search of the same contract on the real function")
                       if failure else "no-failing-input-found"),
         "source_hashes": {k: v for k, v in index.file_hashes.items()},
         "replay_cmd": f"./check {prop} --replay <this file>",
